@@ -72,7 +72,15 @@
 //	                                                      call, results after the check; reuse [new]: two to five values /
 //	                                                      documents, Decoders alive together with interleaved calls
 //	keywords, tokTypes                  per process, r/o  reuse [new] (concurrent calls)
-//	files                               on disk           op file (a temporary directory per case)
+//	files                               on disk           op file (a fresh path per case); op fhist [new]: a HISTORY of
+//	                                                      WriteFile calls on ONE path (texts shrinking / growing / equal,
+//	                                                      scalars over objects, empty containers), the file compared with
+//	                                                      Marshal's output and read back after every call; over a file of
+//	                                                      another mode, a longer foreign file, a symlink, a dangling link;
+//	                                                      a directory / missing directory must fail.  WriteFile is the only
+//	                                                      entry point that opens a file for writing; Fprint into an *os.File
+//	                                                      the caller opened writes at the caller's offset and truncates
+//	                                                      nothing - how that file was opened is the caller's business
 //
 // Thresholds in the code: 20 (three error lists) manyerr; escape digit counts 3/2/4/8, bounds 0377 / 0x10FFFF /
 // D800-DFFF escapes [new]; '0' 'x' and exponent signs of LexNumber numlex [new]; isIdent (digit not first) keys;
@@ -148,30 +156,34 @@ type Obs struct {
 	NonPr    []int       `json:"nonprint,omitempty"`
 	Text     string      `json:"text,omitempty"` // printable copy of the output for reports
 	Note     string      `json:"note,omitempty"`
+	FSteps   []FStep     `json:"fsteps,omitempty"`   // fhist: every WriteFile / ReadFile step on the one path
 	Steps    []Step      `json:"steps,omitempty"`    // script: what every call on the long-lived Decoder returned
 	Unstable []Unstable  `json:"unstable,omitempty"` // hold: results that changed after they were returned (Fin = how many, N = how many were held)
 }
 
 type Case struct {
-	I         int         `json:"i"`
-	Stream    string      `json:"stream"`
-	Op        string      `json:"op"`
-	In        string      `json:"in"`             // input bytes, hex
-	Src       string      `json:"src,omitempty"`  // printable copy of the input
-	Want      string      `json:"want,omitempty"` // canonical intended value
-	Known     []string    `json:"known,omitempty"`
-	Reject    bool        `json:"reject,omitempty"`    // the input must be rejected
-	Plain     bool        `json:"plain,omitempty"`     // the input is a valid RFC 8259 text
-	Reasons   []string    `json:"reasons,omitempty"`   // documented reasons for JSONx to reject it
-	PV        interface{} `json:"pv,omitempty"`        // print: the value tree
-	WantItems []WantItem  `json:"wantitems,omitempty"` // tseries: the intended entries
-	Multi     bool        `json:"multi,omitempty"`     // stream: Want lists the intended values
-	Loose     bool        `json:"loose,omitempty"`     // gort: the type keeps JSON text as text; JSON equality expected
-	Script    string      `json:"script,omitempty"`    // script: the calls, M(ore) D(ecode) S(eries)
-	WantSteps []string    `json:"wantsteps,omitempty"` // script: intended result per call ("" none, "!" no value)
-	RMode     int         `json:"rmode,omitempty"`     // rstream / rseries: the shape of the io.Reader
-	Cut       int         `json:"cut,omitempty"`       // rstream / rseries: bytes delivered before the reader fails
-	Obs       *Obs        `json:"obs,omitempty"`
+	I         int           `json:"i"`
+	Stream    string        `json:"stream"`
+	Op        string        `json:"op"`
+	In        string        `json:"in"`             // input bytes, hex
+	Src       string        `json:"src,omitempty"`  // printable copy of the input
+	Want      string        `json:"want,omitempty"` // canonical intended value
+	Known     []string      `json:"known,omitempty"`
+	Reject    bool          `json:"reject,omitempty"`    // the input must be rejected
+	Plain     bool          `json:"plain,omitempty"`     // the input is a valid RFC 8259 text
+	Reasons   []string      `json:"reasons,omitempty"`   // documented reasons for JSONx to reject it
+	PV        interface{}   `json:"pv,omitempty"`        // print: the value tree
+	WantItems []WantItem    `json:"wantitems,omitempty"` // tseries: the intended entries
+	Multi     bool          `json:"multi,omitempty"`     // stream: Want lists the intended values
+	Loose     bool          `json:"loose,omitempty"`     // gort: the type keeps JSON text as text; JSON equality expected
+	Pre       string        `json:"pre,omitempty"`       // fhist: what is at the path before the first WriteFile
+	PVs       []interface{} `json:"pvs,omitempty"`       // fhist: the value trees, one per step
+	Wants     []string      `json:"wants,omitempty"`     // fhist: canonical intended value per step
+	Script    string        `json:"script,omitempty"`    // script: the calls, M(ore) D(ecode) S(eries)
+	WantSteps []string      `json:"wantsteps,omitempty"` // script: intended result per call ("" none, "!" no value)
+	RMode     int           `json:"rmode,omitempty"`     // rstream / rseries: the shape of the io.Reader
+	Cut       int           `json:"cut,omitempty"`       // rstream / rseries: bytes delivered before the reader fails
+	Obs       *Obs          `json:"obs,omitempty"`
 
 	goVal interface{} // print: the Go value (not serialised)
 }
@@ -620,6 +632,8 @@ func runCase(c *Case) {
 		runTargets(o, in)
 	case "lexfn":
 		runLexFn(c, o, in)
+	case "fhist":
+		runFileHist(c, o)
 	case "shell":
 		ss, es := strtoken.Parse(string(in))
 		o.Errs = errNames(es)
